@@ -705,7 +705,7 @@ def check(repo):
     from .c07 import Analyzer
     an = Analyzer(repo)
     for s in schemes:
-        for mname in ("_Search", "Search"):
+        for mname in ("_Search", "Search", "_Enc", "EDBSetup", "_Trap", "TokenGen"):
             fi = s.cls.methods.get(mname)
             if fi is None:
                 continue
@@ -713,12 +713,48 @@ def check(repo):
             memo = [d for d in fi.decorators if any(k in d for k in ("cache", "memo"))]
             if hidden or memo:
                 node = hidden[0][2] if hidden else fi.node
-                r6.fail_fn(fi, node, "search keeps state on the scheme object",
-                           "%s.%s stores into the scheme object%s: a later search (e.g. for an absent keyword, or against another index) can be answered from it" % (
-                               s.name, mname, " / is memoised" if memo else ""))
+                r6.fail_fn(fi, node, "%s keeps state on the scheme object" % ("search" if "earch" in mname else mname),
+                           "%s.%s stores into the scheme object%s: a later call (a search for an absent keyword, a set-up after a failed one, another index) can be answered "
+                           "from what an earlier call left behind" % (s.name, mname, " / is memoised" if memo else ""))
             else:
                 r6.ok({"scheme": s.name, "method": mname})
 
+    # ------------------------------------------------------------------ R2.7 the keyword is the message, never the key, of a keyed primitive
+    r7 = Rule("R2.7", "labels are keyed with key material and take the keyword as message (a keyword in key position is zero-padded / pre-hashed by HMAC and collides)")
+    rules.append(r7)
+    n_keyed = 0
+    from .c01 import make_kw_test
+    for s in schemes:
+        for mname in ("_Trap", "_Enc"):
+            fi = s.method(mname)
+            ftk = fn_terms(repo, fi)
+            kparam = fi.params[1]
+            kwt = make_kw_test(None, fi.params[2]) if mname == "_Trap" else make_kw_test(fi.params[2], None)
+            seen = set()
+            for n in ftk.cfg.nodes:
+                if n.stmt is None or n.ast is None:
+                    continue
+                for c in ast.walk(n.ast if n.kind == "test" else n.stmt):
+                    if not isinstance(c, ast.Call) or id(c) in seen:
+                        continue
+                    seen.add(id(c))
+                    t = ftk.term(c, n.id, _comp_env(ftk, c, n.id))
+                    if t[0] != "prim" or t[2] in ("Encrypt", "Decrypt", "KeyGen") or len(t[3]) < 2:
+                        continue
+                    key_t, msg_t = t[3][0], t[3][1]
+                    has_K = lambda tt: any(isinstance(x, tuple) and len(x) >= 2 and x[:2] == ("param", kparam) for x in walk(tt))  # noqa: E731
+                    has_kw = lambda tt: any(isinstance(x, tuple) and x and kwt(x) for x in walk(tt))  # noqa: E731
+                    if not (has_K(key_t) or has_K(msg_t)):
+                        continue   # an unkeyed use (a hash of public data) is not a label derivation
+                    n_keyed += 1
+                    if not has_K(key_t) and (has_kw(key_t) or has_K(msg_t)):
+                        r7.fail_fn(fi, c, "keyword in key position",
+                                   "%s.%s calls %s with %s as key and the secret key in the message: HMAC zero-pads (or pre-hashes) its key, so keywords that differ only "
+                                   "by trailing zero bytes (or one being the hash of the other) get the same label, and an absent keyword returns a stored keyword's postings" % (
+                                       s.name, mname, t[1], show(key_t, maxdepth=3)[:60]))
+                    else:
+                        r7.ok({"scheme": s.name, "method": mname, "primitive": t[1], "line": getattr(c, "lineno", 0)})
+    r7.require(n_keyed >= 15, schemes[0].method("_Trap"), "keyed derivations floor", "only %d keyed label derivations found (expected >= 15)" % n_keyed)
     r1.require(n_primary >= 10, schemes[0].method("_Search"), "primary lookups floor",
                "only %d token-indexed dictionary lookups found (expected >= 10, at least one per scheme)" % n_primary)
     return rules
